@@ -15,6 +15,7 @@ run() { # flavour suite prop runs
   else echo "NONDETERMINISTIC $1/$2:"; diff $B/selfcheck/$1-$2-3.sorted $B/selfcheck/$1-$2-11.sorted | head -5; rc=1; fi
 }
 run plain gen-hist C07 $N; run plain gen-sweep C04 $((N/4)); run asan gen-hist C08 $((N/2)); run asan proto C09 $N; run asan reader C11 $N
+run plain gen-plumbing C07 $N; run plain gen-plumbing C04 $N; run asan gen-plumbing C08 $((N/2))
 run asan run C13 $N; run asan files-events C15 $N; run asan files-ga C15 $N; run asan files-lists C15 $((N/20)); run asan threads C12 $((N/6)); run tsan threads C12 $((N/15)); run tsan threads-twins C12 $((N/8))
 FRESH=1; run asan threads C12 $((N/6)); run tsan threads C12 $((N/15))
 exit $rc
